@@ -395,9 +395,9 @@ def run(ctx):
     ctx.phase("tso batch (%d cases)" % len(tcases))
     # 4. retry loops terminate under weak fairness
     w = (1, 2, 4, 8)[ctx.seed % 4]
-    live = [(w, True, ("global", "ptr", "elem")[ctx.seed % 3], op, 2, 2) for op in ("add", "casinc", "lock", "cas")]
+    live = [(w, True, ("global", "ptr", "elem")[ctx.seed % 3], op, 2, 2) for op in ("add", "casinc", "lock", "cas", "for")]
     if not q:
-        live = [(w, True, k, op, nt, r) for w in (1, 2, 4, 8) for k in ("global", "member") for op in ("add", "postdec", "casinc", "lock", "cas", "xchg")
+        live = [(w, True, k, op, nt, r) for w in (1, 2, 4, 8) for k in ("global", "member") for op in ("add", "postdec", "casinc", "lock", "cas", "xchg", "fadd", "fand")
                 for nt, r in ((2, 2), (3, 1))]
     lcases, lmeta = make_cases(ctx, units, live)
     pf = os.path.join(ctx.scratch, "prog-live.json")
